@@ -387,6 +387,22 @@ impl ops::Sub<RealSemiring> for RealSemiring {""",
 }
 
 impl ops::Sub<RealSemiring> for RealSemiring {"""),
+    dict(name="nc-dimacs-long-clauses-skipped", file="src/repr/cnf.rs", rule="NC", props=["C17", "C19"], expect="loop@clauses",
+         old="""            clause_vec.push(lit_vec);""",
+         new="""            if lit_vec.len() > 64 {
+                continue;
+            }
+            clause_vec.push(lit_vec);"""),
+    dict(name="nc-dtree-leaves-filtered", file="src/repr/dtree.rs", rule="NC", props=["C05", "C14"], expect="chain@",
+         old="""                l.init_vars();
+                l
+            })
+            .collect();""",
+         new="""                l.init_vars();
+                l
+            })
+            .filter(|l| !l.get_vars().is_empty())
+            .collect();"""),
     dict(name="law-eu-choose-smaller", file="src/util/semirings/expectation.rs", rule="LAW", props=["C13"], expect="ExpectedUtility:choose",
          old="""impl BBSemiring for ExpectedUtility {
     fn choose(&self, arg: &ExpectedUtility) -> ExpectedUtility {
